@@ -155,6 +155,8 @@ def h_ipv4(ctx, part):
     elif k == 4: txt = t.join('.', q) + ' x'                  # something after the address
     else: txt = t.join('.', q) + chr(10) + '5.6.7.8'          # a second line
     ctx.check('malformed dotted quad rejected', raises(lambda: A.IPAddr(txt), Exception))
+    for bad in ('10.0.0.0/8/junk', '10.0.0.0/8/', '10.0.0.0/255.0.0.0/8'):
+      ctx.check('malformed CIDR text %s rejected' % bad, raises(lambda: A.parse_cidr(bad), Exception))
 
 
 def h_eth(ctx, part):
@@ -343,6 +345,8 @@ def h_ipv6(ctx, part, pattern=0, free=(0,)):
   elif part == 'malformed':
     for txt in ('1::2::3', '1:2:3:4:5:6:7:8:9', '12345::1', 'g::1', '1.2.3.4', ':::', '1:2:3', '1:2:3:4:5:6:7', ':1:2:3:4:5:6:7', '1:2:3:4:5:6:7:', '1:2:3:4:5:1.2.3.4', ':1::2', '1::2:', '1_0::', '+1::', ' 1::', '1::-0', '::/64'):
       ctx.check('malformed %s rejected' % txt, raises(lambda: A.IPAddr6(txt), Exception))
+    for bad in ('::/64/zz', '2001:db8::/32/'):
+      ctx.check('malformed CIDR text %s rejected' % bad, raises(lambda: A.IPAddr6.parse_cidr(bad), Exception))
 
 
 def h_forms(ctx, typ, form):
